@@ -21,10 +21,12 @@
 
    Blocks are ids <<number, version>>; a number is stored again with a fresh version after a
    revert (a reorg).  Bloom windows: two windows are in scope, window 0 = numbers < Boundary and
-   window 1 = numbers >= Boundary (the code's window size is 8192; the replayer places the
-   scenario at real block number Boundary + 8192 - Boundary ...).  A filter's "content" is the set
-   of block ids whose bloom bits it holds; an event of block id b is found by a query iff b is in
-   the content of the filter the query consults for b's window and b's receipts are on disk.
+   window 1 = numbers >= Boundary.  The code's window size is 8192: the replayer maps the
+   specification's block n to the real block n + 8192 - Boundary (a pre-built, pre-pruned base
+   chain below it), so that both boundaries coincide; Boundary > MaxH + 1 means "from genesis, no
+   boundary in reach".  A filter's "content" is the set of block ids whose bloom bits it holds;
+   an event of block id b is found by a query iff b is in the content of the filter the query
+   consults for b's window and b's receipts are on disk.
 
    Confirmed defects are boolean switches (FALSE = the code as it is, TRUE = repaired):
      FixMemAfterCommit    H3: RunningEventFilter.insert/onReorg mutate memory inside the batch
